@@ -52,7 +52,7 @@ def uniq(l):
     return out
 
 P("C01", level="proof", design_ref="7/C01", units=uniq(PACK + ["U.api.encode", "U.str.write", "U.str.write.full"] + DEC + PHR + ["U.lang.search", "U.str.split", "U.str.nfkd_lazy", "L.rt.index", "U.lang.get_comparer"] + ["U.api.decode@ndebug", "U.api.decode_explicit@ndebug", "U.api.encode@ndebug", "U.lang.phrase_decode@ndebug", "U.lang.search@ndebug"]),
-  engines=["tables", "statics"],
+  engines=["tables", "statics", "encwords"],
   technique='CBMC 6.11 contracts: dfcc-enforced function contracts on pack/unpack with inverse lemmas; harness-enforced contracts (woven loop invariants, contract stubs) on encode, both decoders, both phrase decoders, tokeniser, lazy NFKD, search; round-trip lemma over those contracts; closed word-list facts by exhaustive native evaluation; goto symbol-table scan for hidden state',
   text="Round trip decomposed into contracts proved on the real functions: packing/unpacking against the published layout with both "
        "inverse lemmas; polyseed_encode (sequence-level contract over an abstract language object: 16 words and 15 separators in order, "
@@ -71,7 +71,7 @@ P("C02", level="proof", design_ref="7/C02", units=uniq(GF + ["L.gf.single", "L.g
        "over those contracts with every coefficient, position and value symbolic; the decoders' and polyseed_load's contracts show the "
        "checksum status is returned exactly when the evaluation is non-zero, before any allocation (decoders) and with no seed surviving.",
   note="'another word of the same list' = another coefficient by the closed fact T.distinct (all words pairwise distinct under the comparer).")
-P("C03", level="proof", design_ref="7/C03", units=uniq(uniq(["U.gf.pack", "U.gf.encode", "L.gf.unique", "U.api.encode", "U.str.write", "U.str.write.full", "U.api.create", "L.rt.index"] + ["U.api.encode@ndebug", "U.api.create@ndebug"]) + ["U.str.nfkd_lazy"]), engines=["tables", "statics", "calls"],
+P("C03", level="proof", design_ref="7/C03", units=uniq(uniq(["U.gf.pack", "U.gf.encode", "L.gf.unique", "U.api.encode", "U.str.write", "U.str.write.full", "U.api.create", "L.rt.index"] + ["U.api.encode@ndebug", "U.api.create@ndebug"]) + ["U.str.nfkd_lazy"]), engines=["tables", "statics", "calls", "encwords"],
   technique='CBMC 6.11 contracts: dfcc-enforced contract of polyseed_data_to_poly against the published layout written independently; harness-enforced sequence contract of polyseed_encode; write_str proved with a woven loop invariant; registry/golden facts exhaustive; goto symbol-table scan for hidden state (purity)',
   text="polyseed_data_to_poly is proved equal to the published layout written independently in spec.h (check word first, 10 secret bits MSB "
        "first + one feature/birthday bit per word); polyseed_encode is proved to use the stored check value as word 1, XOR the coin into word 2 "
@@ -86,7 +86,7 @@ P("C04", level="proof", design_ref="7/C04", units=uniq(["U.api.keygen", "L.kdf.i
        "length passed through, key bytes not touched afterwards, no other dependency called, seed unchanged (frame); injectivity lemma; "
        "every constructor zero-pads the secret buffer, so equal abstract seeds give equal inputs on every path.",
   note="The PBKDF2 function itself is an injected dependency (assumed). key_size is symbolic in 1..64 (object-size cap).")
-P("C05", level="proof", design_ref="7/C05", units=uniq(["L.gf.coin", "U.gf.mul2", "U.gf.eval", "U.gf.check", "U.api.encode", "L.rt.index"] + DEC + PHR + ["U.gf.pack", "U.str.split"]), engines=["tables", "statics"],
+P("C05", level="proof", design_ref="7/C05", units=uniq(["L.gf.coin", "U.gf.mul2", "U.gf.eval", "U.gf.check", "U.api.encode", "L.rt.index"] + DEC + PHR + ["U.gf.pack", "U.str.split"]), engines=["tables", "statics", "encwords"],
   technique="CBMC 6.11 contracts: coin lemma over the gf_poly_check contract (all coin pairs symbolic); encode / decoder / phrase-decoder contracts; round-trip lemma with two coins; closed fact 'distinct words'",
   text="Lemma over the gf_poly_check contract: a valid codeword with coin A applied and coin B removed validates iff A == B, "
        "for all 2048x2048 pairs and all polynomials; encode applies the coin to word 2 only and after the check value, both decoders remove it "
@@ -98,7 +98,7 @@ P("C06", level="proof", design_ref="7/C06", units=uniq(uniq(["U.st.store", "U.st
        "buffers; polyseed_load proved to return MEMORY, FORMAT, CHECKSUM, UNSUPPORTED, OK in that precedence, to hand out a "
        "canonical seed whose image is the buffer on OK and to free the wiped block otherwise; inverse lemmas over the contracts.",
   note="LP64 only; allocator/free/memzero are stubs (assumed).")
-P("C07", level="other", design_ref="7/C07, 6", units=uniq(["U.lang.search", "U.lang.get_comparer", "U.lang.registry"] + CMPU + ["U.str.split", "U.str.nfkd_lazy"] + PHR + DEC + CMPF + CMPB), engines=["tables"], exhaustive=True,
+P("C07", level="other", design_ref="7/C07, 6", units=uniq(["U.lang.search", "U.lang.get_comparer", "U.lang.registry"] + CMPU + ["U.str.split", "U.str.nfkd_lazy"] + PHR + DEC + CMPF + CMPB), engines=["tables", "encwords"], exhaustive=True,
   technique='exhaustive native evaluation of closed obligations over the 10 x 2048 constant strings through the real comparers and the real search (deciding step), golden digests; CBMC contracts for lang_search, the comparers (functional rule, woven invariants), tokeniser, phrase decoders; order lemma for binary search',
   text="Mostly closed obligations over 10 x 2048 constant strings, decided by exhaustive native evaluation through the real comparers and the real "
        "search (registry, strict sortedness, all pairs distinct, each word found at its own index, first-four-letters uniqueness, Unicode "
@@ -107,7 +107,7 @@ P("C07", level="other", design_ref="7/C07, 6", units=uniq(["U.lang.search", "U.l
   note="'frozen as published' is a comparison with golden digests, not a deduction; libc bsearch is modelled by the textbook algorithm (stubs/bsearch_model.h); utf8proc is the trusted normaliser. "
        "KNOWN FINDING: the literal clause 'no word is a prefix of another' is false for the published English and Spanish lists "
        "(act/action, ano/anotar ...: words shorter than four letters); lists are frozen, see known_findings.json.")
-P("C08", level="proof", design_ref="7/C08", units=uniq(CMPB + CMPU + ["U.lang.get_comparer"] + DEC + STRL + PHR + CMPF), engines=["tables"],
+P("C08", level="proof", design_ref="7/C08", units=uniq(CMPB + CMPU + ["U.lang.get_comparer"] + DEC + STRL + PHR + CMPF), engines=["tables", "encwords"],
   technique='CBMC 6.11 contracts: the four comparers against the acceptance rule with woven inductive invariants (compare_str / compare_prefix full domain; accent-skipping comparers bounded in the key length in the quick tier, full key object in the thorough tier), bounded shadow units without woven text, unbounded memory-safety units; order lemma; exhaustive evaluation of the rule on every prefix x accent subset x spelling of every word through the real search',
   text="Each comparer is proved equal to the reference acceptance rule (full word, or prefix of >= 4 base letters, accents = non-ASCII bytes "
        "ignored in es/fr) AND to the order of the first differing letters, with woven inductive invariants over ghost count / stripped-string "
@@ -121,7 +121,7 @@ P("C08", level="proof", design_ref="7/C08", units=uniq(CMPB + CMPU + ["U.lang.ge
   note="Quick tier: the accent-skipping comparers' functional rule is BOUNDED in the key length (63 bytes); element length is exact by the closed "
        "fact T.wordlen. 'accent' means any non-ASCII byte after NFKD (stated interpretation). The ghost arrays are fixed by axioms A1-A5 "
        "(harness/cmp_rule.c); A5 follows from A1 by induction over the position (base and step checked in L.cmpf.axioms).")
-P("C09", level="proof", design_ref="7/C09", units=uniq(uniq(PHR + DEC + ["U.str.split", "U.lang.search"] + ["U.str.nfkd_lazy", "U.gf.check", "U.lang.get_comparer"]) + ["U.api.decode@ndebug", "U.api.decode_explicit@ndebug", "U.lang.phrase_decode@ndebug", "U.lang.search@ndebug"]), engines=["tables", "statics"],
+P("C09", level="proof", design_ref="7/C09", units=uniq(uniq(PHR + DEC + ["U.str.split", "U.lang.search"] + ["U.str.nfkd_lazy", "U.gf.check", "U.lang.get_comparer"]) + ["U.api.decode@ndebug", "U.api.decode_explicit@ndebug", "U.lang.phrase_decode@ndebug", "U.lang.search@ndebug"]), engines=["tables", "statics", "encwords"],
   technique='CBMC 6.11 contracts: both phrase decoders over an arbitrary search-outcome matrix (lang_search replaced by its contract), both API decoders with contract stubs (status precedence), str_split against a functional tokeniser specification with woven loop invariants; closed facts on the tables',
   text="Both phrase decoders are proved over every search-outcome matrix (OK iff exactly one language recognises all 16 tokens, then the same "
        "indices and language as explicit decoding; MULT_LANG iff two or more, regardless of checksums; LANG iff none); both API decoders are "
@@ -177,7 +177,7 @@ P("C16", level="proof", design_ref="7/C16", units=["U.api.free", "U.api.crypt", 
   note="Source-level only: compiler-made copies (spills, registers), dead stack contents and other optimisation levels are outside what a "
        "source-level contract can express.",
   not_decided=["residue in registers / dead stack frames of the compiled binary; behaviour at other optimisation levels"])
-P("C17", level="proof", design_ref="7/C17", units=uniq(["U.str.write", "U.str.write.full", "U.api.encode", "U.str.nfkd_lazy"] + ["U.api.encode@ndebug"]), engines=["tables", "statics"],
+P("C17", level="proof", design_ref="7/C17", units=uniq(["U.str.write", "U.str.write.full", "U.api.encode", "U.str.nfkd_lazy"] + ["U.api.encode@ndebug"]), engines=["tables", "statics", "encwords"],
   technique='exhaustive native evaluation of T.fits per language (NFKD and NFC forms, per-position maxima) + CBMC contracts: write_str advance contract (woven loop invariant), polyseed_encode cursor arithmetic and length assertion under fits, lazy NFKD bound; goto symbol-table scan for shared buffers',
   text="T.fits[lang]: for each registered language the sum of per-position maximal word lengths (admissible indices) plus separators is "
        "below POLYSEED_STR_SIZE in both the NFKD and the NFC form (exhaustive); write_str proved to advance by exactly strlen and to write only "
